@@ -52,8 +52,9 @@ func kdcProxyMessage(msg []byte, realm string, flags int) []byte {
 // fake KDCs
 
 type kdcBehaviour struct {
-	kind string // reply partial close silent refuse
-	body []byte
+	kind   string // reply partial close silent refuse
+	body   []byte
+	pieces bool // a TCP reply written in two pieces with a pause between
 }
 
 type fakeKDC struct {
@@ -136,7 +137,15 @@ func (k *fakeKDC) serveTCP() {
 				out := make([]byte, 4+len(k.tcp.body))
 				binary.BigEndian.PutUint32(out, uint32(len(k.tcp.body)))
 				copy(out[4:], k.tcp.body)
-				c.Write(out)
+				if k.tcp.pieces && len(out) > 8 {
+					// the reply arrives in pieces: prefix and a part, a pause, the rest
+					cut := 4 + (len(out)-4)/3
+					c.Write(out[:cut])
+					time.Sleep(25 * time.Millisecond)
+					c.Write(out[cut:])
+				} else {
+					c.Write(out)
+				}
 				// a real KDC keeps the connection open for a while
 				k.mu.Lock()
 				k.held = append(k.held, c)
@@ -350,6 +359,10 @@ func runC20(r *Run) {
 					b.kind = "reply"
 				}
 				b.body = append([]byte(fmt.Sprintf("reply-from-kdc%d-", k)), randBytes(rng.Intn(200))...)
+				if rng.Intn(3) == 0 || i < 4 {
+					b.pieces = true
+					b.body = append(b.body, randBytes(rng.Intn(3000))...)
+				}
 				return b
 			}
 			t, u := mk(), mk()
